@@ -42,6 +42,57 @@ def parse_reports(line):
         return None
 
 
+def run_batch(ctx, exe, mode, cases, b, timeout=300):
+    """Run one harness batch (every case in a forked child with a watchdog inside the harness).  A batch-level
+    timeout is retried once.  HANG lines are resolved by re-running the single case up to 3 times:
+      * not reproducible            -> the re-run's line is used, the event goes to coverage 'transient_hangs'
+      * reproducible, after result  -> process-teardown hang: the result already printed is used, recorded only
+      * reproducible, before result -> initTaskingSystem / parallel_for does not return: reported as a violation
+    Returns (rc, lines, stderr)."""
+    for attempt in (1, 2):
+        rc, lines, err = vlib.run_lines(ctx, exe, [mode], cases, timeout=timeout)
+        if rc != 124:
+            break
+        ctx.cov.setdefault("transient_hangs", []).append({"backend": b, "mode": mode, "what": "whole batch timed out after %ds (attempt %d)" % (timeout, attempt)})
+    if rc != 0 or len(lines) != len(cases):
+        return rc, lines, err
+    diag = [l for l in err.split("\n") if l.startswith("HANGDIAG")]
+    for i, l in enumerate(lines):
+        if not l.startswith("HANG"):
+            continue
+        after = "after_result=1" in l
+        partial = l.split("partial=", 1)[1] if "partial=" in l else "-"
+        rec = {"backend": b, "mode": mode, "case": cases[i], "hung_after_result_was_printed": after, "partial": partial,
+               "diagnosis": diag[:60], "reruns": []}
+        resolved = None
+        all_after = after
+        for k in range(3):
+            rc2, o2, e2 = ctx.run_exe(exe, [mode], stdin=cases[i] + "\n", timeout=90)
+            l2 = o2.strip()
+            rec["reruns"].append(l2[:120])
+            if rc2 == 0 and l2 and not l2.startswith("HANG"):
+                resolved = l2
+                break
+            all_after = all_after and "after_result=1" in l2
+            if not rec["diagnosis"]:
+                rec["diagnosis"] = [x for x in e2.split("\n") if x.startswith("HANGDIAG")][:60]
+        if resolved is not None:
+            rec["verdict"] = "transient (not reproducible in %d re-run(s)); result of the re-run used" % len(rec["reruns"])
+            lines[i] = resolved
+        elif all_after and partial != "-":
+            rec["verdict"] = "reproducible hang AFTER the result was printed (process teardown): not about the thread count; printed result used"
+            lines[i] = partial
+        else:
+            rec["verdict"] = "reproducible hang BEFORE the result: the call does not return"
+            ctx.violation("%s backend: case [%s] (%s) hangs reproducibly (4 of 4 runs) before numTaskingThreads()/parallel_for could be observed"
+                          % (b, cases[i], mode),
+                          {"backend": b, "mode": mode, "case": cases[i], "observed": [l] + rec["reruns"], "diagnosis": rec["diagnosis"],
+                           "required": "initTaskingSystem / parallel_for return and the thread count can be observed"})
+        ctx.cov.setdefault("transient_hangs", []).append(rec)
+        ctx.log("HANG on %s %s case [%s]: %s" % (b, mode, cases[i], rec["verdict"]))
+    return rc, lines, err
+
+
 def run(ctx):
     ctx.coq_check(("Properties.v",))
     model = ctx.extract()
@@ -57,7 +108,8 @@ def run(ctx):
     pf_hist = {}
     for b in BACKENDS:
         # ---- the backend's own hardware default (a Section variable of the model)
-        rc, out, err = ctx.run_exe(hx[b], ["seq"], stdin="-1\n", timeout=120)
+        rc, pl0, err = run_batch(ctx, hx[b], "seq", ["-1"], b, timeout=120)
+        out = "\n".join(pl0)
         reps = parse_reports(out.strip()) if rc == 0 else None
         if not reps or len(reps) != 2:
             ctx.violation("%s backend: initTaskingSystem(-1) in a fresh process crashed or printed nothing: %r %s" % (b, out[:200], err[-300:]),
@@ -79,7 +131,7 @@ def run(ctx):
             seqs += [[r.choice(vals) for _ in range(4)] for _ in range(300)]
         cases = [" ".join(map(str, s)) for s in seqs]
         mcases = ["%s %d %s" % (b, model_hw if b != "debug" else 16, c) for c in cases]
-        rc, hl, herr = vlib.run_lines(ctx, hx[b], ["seq"], cases, timeout=900)
+        rc, hl, herr = run_batch(ctx, hx[b], "seq", cases, b, timeout=ctx.pick(300, 1200))
         mrc, ml, merr = vlib.run_lines(ctx, model, [], mcases, timeout=300)
         if mrc != 0 or len(ml) != len(cases):
             ctx.broken.append("model driver failed rc=%s" % mrc)
@@ -99,7 +151,7 @@ def run(ctx):
             mrep = m.split(" workers=")[0]
             if len(s) >= 2 and len(set(s)) >= 2:
                 ctx.nontriv(("seq", b, c))
-            if h == mrep or reported:
+            if h == mrep or reported or h.startswith("HANG"):
                 continue
             reps = parse_reports(h)
             fails = prop_oracle(b, hw, s, reps) if reps is not None else [(-1, "no crash (observed: %s)" % h)]
@@ -134,7 +186,7 @@ def run(ctx):
         for (a, n) in [(8, 2), (2, 5), (3, 1), (hw, 3)] + ([(0, -1), (0, 0), (4, 0)] if True else []):
             pcases.append((a, n, 2000, 50))
             pcases.append((a, n, 300, -1))
-        rc, pl, perr = vlib.run_lines(ctx, hx[b], ["pf"], ["%d %d %d %d" % c for c in pcases], timeout=900)
+        rc, pl, perr = run_batch(ctx, hx[b], "pf", ["%d %d %d %d" % c for c in pcases], b, timeout=ctx.pick(300, 900))
         if rc != 0 or len(pl) != len(pcases):
             ctx.violation("%s backend: the parallel_for harness died (rc=%d) after %d of %d cases" % (b, rc, len(pl), len(pcases)),
                           {"backend": b, "case": pcases[len(pl)] if len(pl) < len(pcases) else None, "stderr_tail": perr[-1500:]},
@@ -144,6 +196,8 @@ def run(ctx):
         rep1 = False
         for c, l in zip(pcases, pl):
             a, n, size, dur = c
+            if l.startswith("HANG"):
+                continue           # reproducible hang: already reported by run_batch
             f = dict(t.split("=") for t in l.split() if "=" in t)
             if b == "debug":
                 lim = 1
@@ -167,6 +221,7 @@ def run(ctx):
                               % (b, ("%d) then initTaskingSystem(" % a) if a else "", n, size, "uneven" if dur < 0 else dur, l, lim, lim, lim),
                               {"backend": b, "case": {"earlier_init": a, "init": n, "loop_size": size, "body_us": dur}, "observed": l,
                                "required": {"count": size, "report": lim, "max_inside_at_most": lim, "distinct_threads_at_most": lim}})
+    ctx.cov.setdefault("transient_hangs", [])
     ctx.cov["hardware_default_per_backend"] = hws
     ctx.cov["init_value_histogram"] = hist_n
     ctx.cov["history_length_histogram"] = hist_len
